@@ -631,5 +631,11 @@ PROPS["C19"]["rules"] = PROPS["C19"]["rules"] + [(lambda ctx: rules_loops.rule_s
 PROPS["C13"]["rules"] = PROPS["C13"]["rules"] + [rules_handles.rule_end_removes_outstanding_ids]
 PROPS["C13"]["explanation"] += " (ENDDANGLE) a routine that destroys a per-file tree whose nodes are registered as ids removes the outstanding ids (three known findings: GRend, and Vend's Remove_vfile for vgroups and vdatas)."
 
+PROPS["C07"]["rules"] = PROPS["C07"]["rules"] + [rules_loops.rule_buffer_units]
+PROPS["C07"]["explanation"] += " (UNITS) in VSread/VSwrite pointers into the caller's buffer advance by machine-size amounts and pointers into the transfer buffer by file-size amounts."
+
+PROPS["C07"]["rules"] = PROPS["C07"]["rules"] + [rules_loops.rule_record_skip_siblings]
+PROPS["C07"]["explanation"] += " (SKIPSIB) the four field-major re-positioning steps of VSread/VSwrite skip by the same quantity."
+
 NOT_APPLICABLE = {}
 
